@@ -161,9 +161,11 @@ func main() {
 		fmt.Fprintln(os.Stderr, err)
 		os.Exit(1)
 	}
-	if err := os.WriteFile(filepath.Join(filepath.Dir(*out), "Slices.lean"), []byte(renderSlices(*repo)), 0o644); err != nil {
-		fmt.Fprintln(os.Stderr, err)
-		os.Exit(1)
+	for name, content := range renderSlices(*repo) {
+		if err := os.WriteFile(filepath.Join(filepath.Dir(*out), name), []byte(content), 0o644); err != nil {
+			fmt.Fprintln(os.Stderr, err)
+			os.Exit(1)
+		}
 	}
 	if err := os.WriteFile(*out, []byte(rendered), 0o644); err != nil {
 		fmt.Fprintln(os.Stderr, err)
